@@ -6,9 +6,9 @@ META = {
             "has an entry, independence of wallets, and under scheduler fairness that a wallet whose action ended becomes available. "
             "Every sequential behaviour of the model is replayed on the real dispatcher comparing results, the action map and the live "
             "goroutines after every step; every interleaving of the map lookup and the insertion of 3 concurrent calls is attempted on "
-            "the real code by parking callers inside the critical section; random concurrent runs are trace-validated with the critical "
+            "the real code by parking callers between the map lookup and the insertion (at the verifhook point and, independently, inside a callback); random concurrent runs are trace-validated with the critical "
             "section and the deferred delete inferred as silent steps.",
-    "note": "Trusted: callers can be parked only inside action.actionType()/wallet() callbacks made by dispatch; a panic inside an "
+    "note": "Trusted: placement of the observation point tbtc.dispatch.beforeInsert (right after the busy check); a panic inside an "
             "action is not survived by the code (no recover) and is not exercised; goroutine liveness is read from runtime.Stack.",
     "technique": "TLA+ contract + hazard-grain spec, TLC exhaustive incl. liveness; behaviour replay; hazard schedules forced through callback gates; trace validation",
     "design_ref": "DESIGN.md §4.5 C25",
@@ -65,8 +65,9 @@ def run(ctx):
         if name not in go.reports:
             ctx.broken("harness report %s missing" % name)
     hz = go.reports["hazard"]
-    if (hz.get("counters") or {}).get("realized", 0) < 5 and not ctx.violations:
-        ctx.broken("no hazard schedule could be driven at all (gate broken?)")
+    hc = hz.get("counters") or {}
+    if (hc.get("realized_via_hook", 0) < 3 or hc.get("realized_via_callback", 0) < 3) and not ctx.violations:
+        ctx.broken("hazard schedules could not be driven (hook tbtc.dispatch.beforeInsert missing or gate broken?): %s" % hc)
     # 4. random concurrent runs validated against the contract model
     tp = ctx.trace_path(go, "trace_dispatcher")
     ok, tr = ctx.validate_trace(SPEC, "Trace_Dispatcher", tp, cfg="Trace_Dispatcher", label="Trace_Dispatcher",
@@ -91,10 +92,10 @@ def run(ctx):
         level="model_checking",
         rule="all sequential behaviours of the contract with 3 (quick: seeded sample of 600; thorough: 4) dispatches over wallets "
              "{w1, w2, unmarshallable} replayed step by step; all Check/Insert interleavings of 3 concurrent dispatch calls over 2 "
-             "wallets (quick: all double-dispatch schedules up to 50 plus 30 others) attempted on the real code; non-trivial = "
+             "wallets (quick: all double-dispatch schedules up to 50 plus 30 others) attempted on the real code twice (held at the hook / in the callback); non-trivial = "
              "behaviours with a refusal, an error or a release / schedules with overlapping critical sections; plus random "
              "concurrent rounds (2-4 callers, 1-3 calls each) trace-validated, and availability observations after ok/err outcomes",
-        assumptions=["callers can be parked only in the callbacks dispatch makes on the action (actionType, wallet)",
+        assumptions=["callers are parked at the hook tbtc.dispatch.beforeInsert and, in a second pass, in the actionType() callback dispatch makes",
                      "a hazard schedule is declared unrealizable after a bounded wait (errs towards 'held')",
                      "goroutine liveness is decided from runtime.Stack ('created by ...walletDispatcher.dispatch')",
                      "a panic inside execute() crashes the process (the code has no recover) and is not exercised"],
